@@ -14,7 +14,7 @@ ASSUMPTIONS = [
     "game names are [a-z0-9_]+; a name equal to another name + '_no_prune' is generated only in dedicated collision probes (open known finding)",
 ]
 RULE = ("run = pool of 2-7 named games (paper/example files, generator boards, random, malformed, no-solution) + 1-8 ops from "
-        "{run_games batch through the API re-using the same dict objects (sometimes after a batch aborted by Ctrl-C at a seeded step), CLI batch (write input file, restart, main() [-s] [-l]), "
+        "{run_games batch through the API re-using the same dict objects (sometimes after a batch aborted by Ctrl-C at a seeded step), CLI batch (write input file, restart, main() [-s] [-l], sometimes with an OSError at open/n-th write/close of the report: the run may fail, but exit status 0 means every entry is in the report), "
         "restart} in seeded orders/subsets with failing games at seeded positions, clock steps/jumps/freezes, log levels, stack "
         "depth; non-trivial = a batch with >=2 games of which one prunes something, or a failing game adjacent to a solvable one; "
         "distinct = hash of (batch shapes, game hashes, fault kinds fired)")
@@ -77,6 +77,10 @@ def gen(rng, tier, ctx):
                   "log": rng.choice([None, None, "i", "d"]) if klass != "plain" else None,
                   "entropy": rng.randint(0, 2 ** 32)}
             env.pop("log", None)
+            if klass == "faulty" and op["save"] and rng.random() < 0.2:
+                on = rng.choice(["write", "write", "close", "close", "open"])
+                op["fs_faults"] = [{"on": on, "mode": "w", "nth": 1 if on != "write" else rng.randint(1, 30),
+                                    "errno": rng.choice(["ENOSPC", "EIO", "EACCES"]), "partial": rng.choice([0, 0.5])}]
         else:
             op = {"op": "restart", "entropy": rng.randint(0, 2 ** 32)}
             env = {}
@@ -324,9 +328,13 @@ def execute(spec, w, ctx):
             log = op.get("log")
             if heavy and log == "d":
                 log = "i"
+            if op.get("fs_faults"):
+                cfg["fs_faults"] = op["fs_faults"]
             out = ops.solver_cli(w, path, bool(op.get("save")), log, cfg, op.get("entropy", 0), cap)
-            events.append([i_op, "cli", names, out["status"], out["steps"], bool(op.get("save")), op.get("log")])
-            if out["status"] != "ok":
+            events.append([i_op, "cli", names, out["status"], out["steps"], bool(op.get("save")), op.get("log"), out["fs_fired"]])
+            if out["fs_fired"] and out["status"] != "ok":
+                w.probe("cli-failed-loudly-under-io-fault")     # allowed: the run says it failed
+            elif out["status"] != "ok":
                 v = viol("I12.3", i_op, "`conditionalrewards.py -f %s%s` over games %s did not finish: %s" % (
                     path, " -s" if op.get("save") else "", names, _show(out)), "batch-aborted")
             elif "ret_obj" in cap:
@@ -334,6 +342,9 @@ def execute(spec, w, ctx):
                 _clock_probe(w, out, cap["ret_obj"])
                 if v is None and op.get("save"):
                     v = _check_report(i_op, w, op, games, spec, ctx)
+                    if v is not None and out["fs_fired"]:
+                        v["msg"] = "exit status 0 although an I/O fault fired (%s), yet: %s" % (out["fs_fired"], v["msg"])
+                        v["sig"]["class"] = "silent-failure:" + v["sig"]["class"]
             elif op.get("save"):
                 v = _check_report(i_op, w, op, games, spec, ctx)
         if v is not None:
